@@ -207,6 +207,13 @@ where
                 let mut ct_f: GLWE<Vec<u8>> = GLWE::alloc_from_infos(&glwe_infos);
                 module.glwe_encrypt_sk(&mut ct_f, &pt2, &sk_prep, &glwe_infos, &mut source_xe, &mut source_xa, scratch.borrow());
                 let mut res: GLWE<Vec<u8>> = GLWE::alloc_from_infos(&glwe_infos);
+                if r.get("poison").is_some() {
+                    let word = r.i64("poison").to_le_bytes();
+                    let bytes: &mut [u8] = scratch.data.as_mut();
+                    for (i, x) in bytes.iter_mut().enumerate() {
+                        *x = word[i % 8];
+                    }
+                }
                 module.cmux(&mut res, &ct, &ct_f, &ggsw_prep, scratch.borrow());
                 out_glwe(&res)
             }
